@@ -207,6 +207,9 @@ def run(tier, config):
                         rep.add(key + "|engine", "C14:engine", obs,
                                 "engine differs (table %s, wrapper %s) " % (geng, weng) + ("but is never compared on either path (app-id check off, no special-cased id)" if obs
                                 else "and the difference is observable (app-id check on, or a special-cased app id)"), d.get("at"))
+    # (e) the dispatcher's arms (callee and argument sources per protocol) agree with the reviewed table
+    from .. import tracespec as TS
+    TS.compare(rep, c, "C14", "C14:dispatch-table")
     # wrappers without a table row are listed (not violations: the property quantifies over table rows)
     if config == "baseline":
         rep.floor("GAMES rows", len(games), 96)
